@@ -190,28 +190,40 @@ from .rules import crypto  # noqa: E402
 
 def py_version_default(ctx, rep, rule):
     """Both clients replace the protocol version only when the caller passed none (SnmpVersion.v1 is falsy: 0)."""
-    import ast
     for mod in py.CLIENTS:
-        f = ctx.py.func("%s:SnmpSession.__init__" % mod)
-        if f is None:
-            rep.missing(rule, mod + ".SnmpSession.__init__")
+        ps = py.paths(ctx, rep, rule, mod, "SnmpSession", "__init__")
+        if not ps:
             continue
-        asg = f.assigns_to("version")
-        for st, cx in asg:
-            v = ast.unparse(st.value)
-            ok = cx.has("eq(None,version)", True) and v == "SnmpVersion.v2c if user is None else SnmpVersion.v3"
-            rep.check(rule, "%s.__init__|version default" % mod, ok, "autodetected only when version is None",
-                      "the requested version is replaced by `%s` under %s: an explicit SnmpVersion.v1 (value 0) is treated as not given" % (v, cx.conds),
-                      ctx.py.loc(mod, st), obligation=True)
-        ctor = {"SnmpV1ClientSocket": "eq(SnmpVersion.v1,version)", "SnmpV2cClientSocket": "eq(SnmpVersion.v2c,version)", "SnmpV3ClientSocket": "eq(SnmpVersion.v3,version)"}
-        for name, cond in ctor.items():
-            for c, cx, st in f.calls_to(lambda t, name=name: t == name):
-                rep.check(rule, "%s.__init__|%s" % (mod, name), cx.has(cond, True), "built for its own version", "%s is built under %s" % (name, cx.conds), ctx.py.loc(mod, c),
-                          obligation=True)
-                a = [ast.unparse(x) for x in c.args]
-                if name != "SnmpV3ClientSocket":
-                    rep.check(rule, "%s.__init__|%s community" % (mod, name), a[:2] == ["f'{addr}:{port}'", "community"], "address and community", "socket built from %s" % a[:2],
-                              ctx.py.loc(mod, c))
+        seen = set()
+        found = set()
+        for p in ps:
+            for e in p.events:
+                if e.kind == "bind" and e.target == "version":
+                    k = ("b", e.value, e.conds)
+                    if k in seen:
+                        continue
+                    seen.add(k)
+                    ok = ("eq(None,version)", True) in e.conds and e.value in ("SnmpVersion.v2c", "SnmpVersion.v3")
+                    if ok:
+                        ok = (e.value == "SnmpVersion.v2c") == (("eq(None,user)", True) in e.conds or ("user", False) in e.conds)
+                    rep.check(rule, "%s.__init__|version default" % mod, ok, "autodetected only when version is None",
+                              "the requested version is replaced by `%s` under %s: an explicit SnmpVersion.v1 (value 0) is treated as not given, or the default "
+                              "does not follow the user argument" % (e.value, e.conds), py.loc(ctx, mod, e), obligation=True)
+            ctor = {"SnmpV1ClientSocket": "eq(SnmpVersion.v1,version)", "SnmpV2cClientSocket": "eq(SnmpVersion.v2c,version)", "SnmpV3ClientSocket": "eq(SnmpVersion.v3,version)"}
+            for name, cond in ctor.items():
+                for i, e in py.calls(p, name):
+                    found.add(name)
+                    k = (name, (cond, True) in e.conds, tuple(e.args[:2]))
+                    if k in seen:
+                        continue
+                    seen.add(k)
+                    rep.check(rule, "%s.__init__|%s" % (mod, name), (cond, True) in e.conds, "built for its own version", "%s is built under %s" % (name, e.conds),
+                              py.loc(ctx, mod, e), obligation=True)
+                    if name != "SnmpV3ClientSocket":
+                        rep.check(rule, "%s.__init__|%s community" % (mod, name), e.args[:2] == ["f'{addr}:{port}'", "community"], "address and community",
+                                  "socket built from %s" % e.args[:2], py.loc(ctx, mod, e))
+        if len(found) < 3:
+            rep.missing(rule, mod + ".__init__: three socket constructors")
 
 
 prop("C03", "other",
